@@ -338,9 +338,10 @@ def check_injection(a, routes=L.ROUTES):
     okey = (u.modname, json.dumps(orig, sort_keys=True))
     if a.get("_union_classes") is not None:
         # subtrees bound by a UnionNode are labelled the way the class they were written from binds them
-        labels, inside = _cached(("ulab",) + okey, lambda: L.resolve_union_labels(u, clazz, orig, a["_union_classes"]))
+        labels, inside = _cached(("ulab",) + okey, lambda: L.desc_labels(desc, clazz, orig, a["_union_classes"]))
     else:
-        labels, inside = _cached(("lab",) + okey, lambda: L.label_elements(u, clazz, orig)), ()
+        # decided from the class description alone: a defect in child/build_node cannot relabel an element and silence its claim
+        labels, inside = _cached(("lab",) + okey, lambda: L.desc_labels(desc, clazz, orig))
     lab = labels.get(tuple(inj["path"]))
     if lab is None or lab[0] == "union":
         return None
@@ -393,13 +394,13 @@ def check_injection(a, routes=L.ROUTES):
                     if not _same(r0, r1):
                         return f"{where} unknown attribute {inj['q']} changed the result [wild={L.declares_wildcard(desc, lab[1])}]: {_short(r0)} -> {_short(r1)}"
                 elif r1 != {"err": "ParserError"}:
-                    if in_union and not cfg["fail_on_unknown_properties"] and "ok" in r1 and not _same(r0, r1):
-                        # the candidate the element was written from rejects the attribute; with unknown properties
-                        # skipped another candidate of the union may take the element (skipping what it does not
-                        # declare, the attribute with it), as for unknown elements above: the only claim left is that
-                        # the element is not bound as if the attribute were not there
-                        continue
-                    return f"{where} fail_on_unknown_attributes: unknown attribute {inj['q']} did not raise ParserError: {_short(r1)}"
+                    # the option is on: the attribute must fail, also inside a union-bound element.  Region of the
+                    # listed finding C10-union-strict-attr-rebinds: the attribute sits on a descendant of the union
+                    # element and unknown properties are skipped, so another candidate may skip that descendant.
+                    region = (in_union and tuple(inj["path"][:-1]) in inside and not cfg["fail_on_unknown_properties"]
+                              and "ok" in r1 and not _same(r0, r1))
+                    return (f"{where} fail_on_unknown_attributes: unknown attribute {inj['q']} did not raise ParserError"
+                            f"{' [union-rebind]' if region else ''}: {_short(r1)}")
             elif lab[0] == "primitive" and not cfg["fail_on_unknown_attributes"]:
                 if not _same(r0, r1):
                     return f"{where} unknown attribute {inj['q']} on a simple-typed element changed the result: {_short(r0)} -> {_short(r1)}"
@@ -500,10 +501,18 @@ def covered_injection(a, msg, routes=L.ROUTES):
     taken out of those generic elements again; anything else that changes is a different violation."""
     inj = a.get("_inj") or {}
     u = uni_of(a)
+    if "[union-rebind]" in msg and inj.get("kind") == "attr" and a.get("ctx") is not None:
+        # attributed to the finding only while the code still answers what the union model (Bind/Union.lean, which
+        # reproduces the rebinding: Props.C10.union_strict_attr_rebinds) answers on this very document
+        import framework
+
+        if framework.behaves_as_modelled(CORR_PARSE_U, a) is True:
+            return "C10-union-strict-attr-rebinds"
+        return None
     if inj.get("kind") == "attr-value" and "lenient conversion: attribute value" in msg and a.get("_union_classes") is None:
         # the same copy of the raw attributes, seen from a declared attribute: the generic element mirrors its raw value;
         # with the mirrored entry taken out on both sides the statement about the conversion must hold as it stands
-        lab = L.label_elements(u, a["clazz"], a["_orig"]).get(tuple(inj["path"]))
+        lab = L.desc_labels(a["desc"], a["clazz"], a["_orig"])[0].get(tuple(inj["path"]))
         if not lab or lab[0] != "element" or not L.declares_wildcard(a["desc"], lab[1]):
             return None
         for route in routes:
@@ -776,6 +785,8 @@ def gen_metastate(rng, tier):
             continue
         if n % 3 and tier == "quick":
             continue
+        if n % 2 and tier != "quick":
+            continue
         le, st = rng.choice(lenient), rng.choice(strict)
         order = [[le, st], [st, le, st], [le, le], [le, rng.choice(L.CFG8), st]][n % 4]
         yield {"ctx": a["ctx"], "clazz": a["clazz"], "desc": a["desc"], "_uni": a["_uni"], "_orig": a["_orig"], "_kind": inj["kind"],
@@ -810,15 +821,16 @@ def check_metastate(a):
 
 
 def gen_union_xml(rng, tier):
-    per_doc = n_cases(tier, 40, 120)
-    for i in range(n_cases(tier, 12, 80)):
+    per_doc = n_cases(tier, 40, 100)
+    for i in range(n_cases(tier, 12, 50)):
         desc = L.union_desc(rng)
         u = uni_of({"desc": desc})
         try:
             obj = L.union_instance(rng, u)
             tree = G.xml_tree(G.real_serialize(u, obj, writer=rng.choice(["native", "lxml"])).encode())
             occ = L.union_occurrences(u, obj)
-            labels, inside = L.resolve_union_labels(u, "Root", tree, occ)
+            labels, inside = L.resolve_union_labels(u, "Root", tree, occ)  # spreads the samples only; the oracle labels from the description
+            ctx = u.export_ctx()
         except Exception:  # noqa: BLE001
             continue
         combos = [(inj, cfg) for inj in injection_points(tree) for cfg in L.CFG8]
@@ -828,7 +840,7 @@ def gen_union_xml(rng, tier):
         picked = stratified(rng, inner, labels, 2 * per_doc // 3) + stratified(rng, outer, labels, per_doc // 3)
         for inj, cfg in picked:
             yield {"tree": apply_injection(tree, inj), "clazz": "Root", "config": cfg, "desc": desc, "_uni": u.modname,
-                   "_kind": inj["kind"] + ("@union" if tuple(inj["path"]) in inside else ""), "_inj": inj, "_orig": tree, "_union_classes": occ}
+                   "_kind": inj["kind"] + ("@union" if tuple(inj["path"]) in inside else ""), "_inj": inj, "_orig": tree, "_union_classes": occ, "ctx": ctx}
 
 
 def impl_union_xml(a):
@@ -846,10 +858,16 @@ def impl_unioncfg(a):
     return L.real_unioncfg(a["config"], a["doc"])
 
 
+CORR_PARSE_U = Corr("bind.parse_u", lambda rng, tier: (a for a in gen_union_xml(rng, tier)), impl_parse, compare=cmp_parse,
+                    classify=classify_inject, nontrivial=lambda a, o: "_inj" in a,
+                    describe="NodeParser(EventsHandler) vs parseRootU (Bind/Union.lean) on the union universes of C10 with every injection kind, "
+                             "8 configs: the rebinding of C10-union-strict-attr-rebinds and the strict conversions of the trials included")
+
 CORRS += [
+    CORR_PARSE_U,
     Corr("bind.unioncfg", gen_unioncfg, impl_unioncfg,
          describe="the ParserConfig UnionNode.bind hands to the parsers that replay the recorded events for the candidate classes, and the "
-                  "caller's ParserConfig afterwards, vs unionReplayConfig"),
+                  "caller's ParserConfig afterwards, vs strictCfg (Bind/Union.lean)"),
     Corr("c10.union_xml", gen_union_xml, impl_union_xml, spec=lambda a: {"ok": "as stated"}, compare=cmp_xml_e2e,
          classify=lambda a, o: f"{a['_kind']}:{L.cfg_key(a['config'])}:{'ok' if 'ok' in o else 'deviates'}",
          describe="spec-level: documents of universes with fields that are unions of dataclasses (single, list, inside a child class; "
@@ -921,7 +939,31 @@ def finding_dict_derived():
     return still, "; ".join(out)
 
 
+def finding_union_rebind():
+    from typing import Optional, Union
+
+    from xsdata.formats.dataclass.parsers import XmlParser
+    from xsdata.formats.dataclass.parsers.config import ParserConfig
+
+    Lc = _mk("L", [("k", Optional[str], {"type": "Attribute"})])
+    T = _mk("T", [("i", Optional[Lc], {"type": "Element"})])
+    S = _mk("S", [("s", Optional[str], {"type": "Attribute"})])
+    R = _mk("R", [("u", Optional[Union[T, S]], {"type": "Element"})])
+    doc = '<R><u><i z="1"/></u></R>'
+    out = {}
+    for props in (False, True):
+        for attrs in (False, True):
+            try:
+                out[(props, attrs)] = XmlParser(config=ParserConfig(fail_on_unknown_properties=props, fail_on_unknown_attributes=attrs)).from_string(doc, R)
+            except Exception as e:  # noqa: BLE001
+                out[(props, attrs)] = type(e).__name__
+    still = (type(out[(False, False)].u).__name__ == "T" and not isinstance(out[(False, True)], str)
+             and type(out[(False, True)].u).__name__ == "S" and out[(True, True)] == "ParserError")
+    return still, f"{doc}: lenient {out[(False, False)]}; fail_on_unknown_attributes with unknown properties skipped: {out[(False, True)]}; both strict: {out[(True, True)]}"
+
+
 FINDINGS = {
+    "C10-union-strict-attr-rebinds": finding_union_rebind,
     "C10-wild-text-takes-unknown-attrs": finding_wild_text,
     "C10-dict-derived-keys": finding_dict_derived,
 }
